@@ -97,8 +97,15 @@ func (c *Cache) Commit() (err error) {
 	c.changes.writeMU.RLock()
 	defer c.changes.writeMU.RUnlock()
 	for src = range c.changes.write {
-		if err = c.remoteFS.MkdirAll(path.Dir(src), filesystem.DefaultUnixDirMode); err != nil {
-			return err
+		// create the parent directories the buffer still has: the written node (and some of
+		// its parents) may have been removed again after the write was journalled
+		for dir := path.Dir(src); dir != "." && dir != "/"; dir = path.Dir(dir) {
+			if c.bufferFS.IsDir(dir) {
+				if err = c.remoteFS.MkdirAll(dir, filesystem.DefaultUnixDirMode); err != nil {
+					return err
+				}
+				break
+			}
 		}
 		if c.bufferFS.IsFile(src) {
 			if err = fshelper.StreamCopy(c.bufferFS, c.remoteFS, src); err != nil {
